@@ -724,25 +724,36 @@ class NetworkGraph(AbstractBaseIR):
         # step 2: process incoming edges
         source_vars, args = {}, {}
         eqs, in_vars = [], []
+
+        # names generated for the edge operator must neither collide with the target variable (which may itself be
+        # called `weight`, `x_in0`, ... or like the source variable) nor with each other
+        taken = {tvar}
+
+        def _fresh(name: str) -> str:
+            while name in taken:
+                name = f"{name}_"
+            taken.add(name)
+            return name
+
         for i, (weight, sidx, tidx, (snode, sop, svar), edge_ir, edge_var_map) in \
                 enumerate(zip(weights, source_indices, target_indices, sources, edge_irs, edge_var_maps)):
 
             # define variable name strings (adjusted when multiple inputs share same target var)
             if multiple_inputs:
                 in_shape = (tsize,)
-                t_str = f'{tvar}_in{i}'
-                w_str = f'weight_in{i}'
-                s_str = f'{svar}_in{i}'
-                sidx_str = f'source_idx_in{i}'
-                tidx_str = f'target_idx_in{i}'
+                t_str = _fresh(f'{tvar}_in{i}')
+                w_str = _fresh(f'weight_in{i}')
+                s_str = _fresh(f'{svar}_in{i}')
+                sidx_str = _fresh(f'source_idx_in{i}')
+                tidx_str = _fresh(f'target_idx_in{i}')
                 args[t_str] = {'value': np.zeros(in_shape), 'dtype': 'float', 'vtype': 'variable',
                                'shape': in_shape}
             else:
                 t_str = tvar
-                w_str = 'weight'
-                s_str = svar
-                sidx_str = 'source_idx'
-                tidx_str = 'target_idx'
+                w_str = _fresh('weight')
+                s_str = _fresh(svar)
+                sidx_str = _fresh('source_idx')
+                tidx_str = _fresh('target_idx')
 
             # case 0g: global edge — weight is a 0-d (scalar) array (used by
             # Connectivity for uniform all-to-all coupling). Realized as a reduction
